@@ -68,5 +68,52 @@ func buildPipeline(g *scheduler.ExecutionGraph, stages []*stageDefinition, cfg *
 		}
 	}
 
+	// every dependency must be a stage of this pipeline (stages may be declared in any order)
+	for name, stage := range g.Nodes() {
+		for _, dep := range stage.DependsOn {
+			if _, err := g.Node(dep); err != nil {
+				return nil, fmt.Errorf("stage %s depends on unknown stage %s", name, dep)
+			}
+		}
+	}
+
 	return g, nil
+}
+
+// checkPipelineInclusion rejects pipelines that include themselves, directly or through other pipelines
+func checkPipelineInclusion(pipelines map[string][]*stageDefinition) error {
+	const (
+		visiting = 1
+		done     = 2
+	)
+	state := make(map[string]int)
+
+	var visit func(name string) error
+	visit = func(name string) error {
+		switch state[name] {
+		case visiting:
+			return fmt.Errorf("pipeline %s includes itself", name)
+		case done:
+			return nil
+		}
+		state[name] = visiting
+		for _, def := range pipelines[name] {
+			if def != nil && def.Task == "" && def.Pipeline != "" {
+				if err := visit(def.Pipeline); err != nil {
+					return err
+				}
+			}
+		}
+		state[name] = done
+
+		return nil
+	}
+
+	for name := range pipelines {
+		if err := visit(name); err != nil {
+			return err
+		}
+	}
+
+	return nil
 }
